@@ -256,6 +256,15 @@ pub proof fn lemma_std7_invertible(m: MatrixCoefficients)
     if std_krkb(m) { lemma_h273_fwd_invertible(h273_kr(m), h273_kb(m)); }
     if m == MatrixCoefficients::YCgCo { assert(m3_det(ycgco_fwd()) == -0.25real); }
 }
+// C08 (exact): encoding the decoded pixel returns the pixel, for every real vector v:  fwd * (inv * v) == v
+pub proof fn lemma_roundtrip_exact(m: MatrixCoefficients, v: V3)
+    requires std7(m)
+    ensures m3_mulvec(fwd_of(m), m3_mulvec(m3_inv(fwd_of(m)), v)) == v
+{
+    lemma_std7_invertible(m); lemma_inverse(fwd_of(m));
+    lemma_mulvec_assoc(fwd_of(m), m3_inv(fwd_of(m)), v);
+    lemma_id_mulvec(v);
+}
 // C16: rows of every standard encode matrix: luma sums to 1, chroma rows to 0  => grey has zero chroma
 pub proof fn lemma_std7_rows(m: MatrixCoefficients)
     requires std7(m)
